@@ -57,6 +57,10 @@ def run(ck: Checker, prog: Program, tier: str):
     from .c04 import _r4 as _azimuthal_forwarding
     ck.guard(_azimuthal_forwarding, ck, prog, P + "R2")
     ck.guard(_r4_guard, ck, prog)
+    # the policy a caller constructs is the policy the pipeline reads
+    from .c15 import check_delivery
+    ck.guard(check_delivery, ck, prog, P + "R2", ["HvsrTraditionalProcessingSettings", "HvsrTraditionalSingleAzimuthProcessingSettings", "HvsrTraditionalRotDppProcessingSettings", "HvsrAzimuthalProcessingSettings", "HvsrDiffuseFieldProcessingSettings"],
+             only=("handle_dissimilar_time_steps_by", "fft_settings"), why="records with other time steps would be handled by the default policy", floor=5)
     ck.guard(_validation, ck, prog)
     ck.guard(_history, ck, prog)
     for q in ROW_BODIES[:2]:
